@@ -213,10 +213,27 @@ func (ex *Exec) newObject(t types.Type, v Value, label string) *Object {
 }
 
 // load reads the value at a pointer.
+// guard checks a watched access against its mutex (lock-discipline monitor).
+func (ex *Exec) guard(g *mutexGhost, write bool, what string) {
+	if g == nil || !ex.watchOn || ex.spec > 0 {
+		return
+	}
+	if g.writer || (!write && g.readers > 0) {
+		return
+	}
+	kind := "unguarded-read"
+	if write {
+		kind = "unguarded-write"
+	}
+	ex.logEvent("unguarded", nil)
+	ex.X.Deadlocks[kind+" of "+what+" at "+ex.where(ex.X.curFrame)]++
+}
+
 func (ex *Exec) load(p *Ptr) Value {
 	if p.Obj == nil {
 		ex.goPanicRuntime("nil pointer dereference")
 	}
+
 	v := p.Obj.V
 	for _, i := range p.Path {
 		switch a := v.(type) {
@@ -257,6 +274,9 @@ func updatePath(v Value, path []int, nv Value) Value {
 func (ex *Exec) store(p *Ptr, v Value) {
 	if p.Obj == nil {
 		ex.goPanicRuntime("nil pointer dereference")
+	}
+	if ex.watchObj != nil {
+		ex.guard(ex.watchObj[p.Obj], true, p.Obj.Label)
 	}
 	p.Obj.V = updatePath(p.Obj.V, p.Path, v)
 }
